@@ -60,6 +60,10 @@ Definition midpoint_old (t : ctype) (l u : S I) : S I :=
 Definition twice (t : ctype) (x : S I) : S I :=
   if isfloat t then bop I Mul F32 (flit I F32 2 1) x
   else cast I F32 t (bop I Mul F32 (flit I F32 2 1) (cast I t F32 x)).
+Definition lows_ (r : rangeops I) (b : boxT r) : list (S I) := comps r (lower r b).
+Definition highs_ (r : rangeops I) (b : boxT r) : list (S I) := comps r (upper r b).
 Definition sizes (r : rangeops I) (b : boxT r) : list (S I) :=
   map2 (bop I Sub (ety r)) (comps r (upper r b)) (comps r (lower r b)).
 End Defs.
+Arguments lows_ {I}.
+Arguments highs_ {I}.
